@@ -22,6 +22,7 @@ import math
 import struct
 
 import common
+import floatref
 import pyfacts
 import values
 import yaql
@@ -29,7 +30,7 @@ from yaql.language import exceptions as yexc
 from yaql.language import factory
 
 ID = 'C15'
-LEAN_MODULES = ['Yaql.Props.C15', 'Yaql.Props.C15Gen']
+LEAN_MODULES = ['Yaql.Props.C15', 'Yaql.Props.C15Gen', 'Yaql.Props.C15Float', 'Yaql.Props.FloatRound']
 _P = 'Yaql.Props.C15.'
 REQUIRED_THEOREMS = [_P + n for n in (
     'select_bin', 'select_un', 'int_exact', 'int_ring_laws', 'floor_div_mod', 'mixed_is_float',
@@ -38,10 +39,17 @@ REQUIRED_THEOREMS = [_P + n for n in (
     'unrelated_no_match', 'unrelated_no_match_unary', 'related_matches', 'error_classes', 'dispatch_unique',
     'string_ops', 'repetition', 'truth_ops')] + [
     'Yaql.Props.C15Gen.operator_overloads', 'Yaql.Props.C15Gen.overloads_plain',
-    'Yaql.Props.C15Gen.operators_covered']
+    'Yaql.Props.C15Gen.operators_covered',
+    'Yaql.Props.C15.float_of_int', 'Yaql.Props.C15.toFloat_eq_roundRat',
+    'Yaql.Props.FloatRound.roundRat_nearest', 'Yaql.Props.FloatRound.roundRat_exact',
+    'Yaql.Props.FloatRound.roundRat_tie_even', 'Yaql.Props.FloatRound.roundRat_overflow_iff_rat',
+    'Yaql.Props.FloatRound.roundRat_mono', 'Yaql.Props.FloatRound.roundRat_neg', 'Yaql.Props.FloatRound.roundRat_congr',
+    'Yaql.Props.FloatRound.roundRat_total', 'Yaql.Props.FloatRound.decode_encodeScaled',
+    'Yaql.Props.FloatRound.encodeScaled_decode']
 TRUSTED = ['the four IEEE-754 operations + - * / on two doubles are parameters of the theorems; the driver uses the '
            "machine's doubles through Lean `Float`, CPython through C `double` (same hardware); NaN sign/payload is "
-           'not compared',
+           'not compared.  NOT trusted any more: float(int) rounding - it is FloatRound.roundRat i 1, proved exact up to 2**53, '
+           'nearest, ties to even, OverflowError exactly from 2**1024 - 2**970, monotone (C15.float_of_int)',
            'the probe values per kind used by harness/gens/scalarops.py to describe what a parameter type accepts']
 ASSUMPTIONS = ['default engine options (no memory quota), default context; operands are bound as variables',
                'string repetition is not exercised where the result would have between 4096 and 2**48 characters '
@@ -554,6 +562,9 @@ def run(env, res):
     hist = {'kind_pairs_x_ops': {}}
     if env['replay']:
         rp = json.load(open(env['replay']))
+        if (rp.get('case') or {}).get('section') == 'floatround':
+            floatref.replay(env, res, rp['case'])
+            return res
         c = rp['case']
         vals = [values.dec(c[k]) for k in ('a', 'b', 'c') if k in c]
         Round(vals, drv, res, hist).run()
@@ -568,6 +579,8 @@ def run(env, res):
         Round(vals, drv, res, hist).run()
         if res.failures:
             break
+    # the shared float section: FloatRound.roundRat / floatOfInt / divBits vs CPython, bit for bit
+    hist['floatround'] = floatref.run_section(env, res, ID, 1200 if tier == 'quick' else 12000)
     hist['corpus'] = dict(boundary=len(BOUNDARY), random_per_round=plan,
                           kinds={k: sum(1 for v in BOUNDARY if kind(v) == k) for k in ('null', 'bool', 'int', 'float', 'str')})
     if drv and any('C15Gen' in b for b in env.get('broken', [])):
@@ -582,7 +595,8 @@ def run(env, res):
 
 LEVEL_TEXT = ('Lean 4 theorems over an executable model of the scalar operators (Yaql/Model/Scalar.lean: the registered overload '
               'table, overload selection by accepted kinds, exact Int arithmetic, Int.fdiv/Int.fmod, doubles as bit patterns whose '
-              'value, comparison with ints, float(int) rounding/overflow, fmod and sign rules are defined by exact integer '
+              'value, comparison with ints, float(int) (= FloatRound.roundRat i 1: float_of_int proves it exact to 2**53, nearest, '
+              'ties-to-even, OverflowError exactly from 2**1024-2**970, monotone), fmod and sign rules are defined by exact integer '
               'arithmetic, the four IEEE operations as parameters), for ALL integers, ALL double bit patterns, ALL strings and ALL '
               'float-operation structures: int_exact / int_ring_laws, floor_div_mod (a = (a/b)*b + a mod b, remainder in range, '
               'ZeroDivisionError for 0), mixed_is_float, gt_flip / ge_flip / le_iff / trichotomy / lt_trans / order_consistent '
@@ -594,10 +608,12 @@ LEVEL_TEXT = ('Lean 4 theorems over an executable model of the scalar operators 
               '+kernel, regenerated each run); operators_covered: the engine operator list is the modelled one. Correspondence: all '
               'pairs of a boundary + random corpus under every operator, real engine vs compiled model, bit-exact. Oracle on the '
               'real code alone: the laws of the statement on the real result table (pairs and triples) and agreement with a '
-              'plain-Python transcription.')
+              'plain-Python transcription. Shared float section: roundRat / floatOfInt / divBits of the model against CPython int/int, '
+              'float(Fraction), float(str), float(int), float/float on a boundary-rich corpus of rationals, bit for bit.')
 LEVEL_NOTE = ('trusted: Lean kernel; the hand-written model; + - * / on two doubles are opaque parameters in the theorems and the '
               "machine's doubles in the correspondence (Lean Float and CPython both use the hardware; NaN payloads are not "
-              'compared); the kind probes of the table generator. Python float % is modelled exactly (C fmod by integer '
+              'compared); the kind probes of the table generator. float(int) rounding is no longer trusted (modelled by '
+              'FloatRound.roundRat, proved correctly rounded). Python float % is modelled exactly (C fmod by integer '
               'arithmetic + the sign fix-up addition). String repetition is exercised only where the result is small or '
               'the allocation must fail (capacity is a model parameter). Booleans ARE ordered against null by the null overloads '
               '(typed object): bool_not_number states the rejection for every non-null partner and null_bottom covers the rest. '
